@@ -105,6 +105,20 @@ class Ctx:
     def cover(self, name):
         self.covers_hit.add(name)
 
+    def lemma(self, name, nvars, stmt, sort="real"):
+        """A helper lemma  forall v1..vn. stmt(v)  is proved once as its own obligation (no hypotheses, fresh
+        variables) and may then be *assumed* on ground instances: returns the instantiation function.
+        This keeps solver queries small (the design's 'ground-instantiated lemma' rule)."""
+        mk = z3.Real if sort == "real" else z3.Int
+        vs = [mk(f"lem!{name}!{i}") for i in range(nvars)]
+        self.obls.append((f"lemma:{name}", [], stmt(*vs), "lemma"))
+
+        def inst(*terms):
+            ts = [core.rterm(t) if sort == "real" else core.term(t) for t in terms]
+            self.ex.assume(stmt(*ts))
+
+        return inst
+
     def module(self, relpath):
         return self.interp.load_module(relpath)
 
@@ -139,6 +153,7 @@ class FunctionResult:
         self.src = None
         self.time_s = 0.0
         self.dropped = []
+        self.vacuous = []
 
     @property
     def status(self):
@@ -146,7 +161,7 @@ class FunctionResult:
             return "checker-error"
         if any(o.status == "refuted" for o in self.obligations):
             return "refuted"
-        if self.unsupported or self.covers_missing or not self.obligations or any(o.status == "undecided" for o in self.obligations):
+        if self.vacuous or self.unsupported or self.covers_missing or not self.obligations or any(o.status == "undecided" for o in self.obligations):
             return "undecided"
         return "discharged"
 
@@ -169,6 +184,8 @@ class FunctionResult:
             d["unsupported"] = sorted(set(self.unsupported))[:5]
         if self.covers_missing:
             d["covers_missing"] = self.covers_missing
+        if self.vacuous:
+            d["vacuous_paths"] = self.vacuous[:5]
         if self.error:
             d["error"] = self.error
         return d
@@ -215,6 +232,7 @@ class Runner:
         res.src = source_info(self.repo, con.file, con.function)
         t0 = time.time()
         covers = set()
+        seen_lemmas = set()
         try:
             for case in con.cases:
                 ex = core.Explorer(max_paths=con.max_paths)
@@ -235,8 +253,18 @@ class Runner:
                     if ctx is None:
                         continue
                     covers |= ctx.covers_hit
+                    # vacuity guard: the hypotheses of the path must be satisfiable (unknown is accepted)
+                    if ctx.obls:
+                        r, _ = core.check_sat(list(p.hyps), timeout_ms=3000, use_cvc5=False)
+                        if r == "unsat":
+                            res.vacuous.append(f"[{case}] path #{pi}: contradictory hypotheses")
+                            continue
                     allob = [(n, h, g, k) for (n, h, g, k) in p.call_obligations] + ctx.obls
                     for clause, hyps, goal, kind in allob:
+                        if kind == "lemma":
+                            if clause in seen_lemmas:
+                                continue
+                            seen_lemmas.add(clause)
                         cname = str(case) if not isinstance(case, str) else case
                         oid = f"{con.prop}/{con.function}/{cname}/{clause}"
                         o = Obligation(oid, con.function, f"{cname}#p{pi}", clause, hyps, goal, kind=kind)
